@@ -30,9 +30,10 @@ for m in sorted(glob.glob(os.path.join(root, 'seeded', '*', '*', 'meta.json'))):
   n += 1
   if d.get('initially_missed'):
     missed += 1
-  if not v.get('detected'):
+  if not v.get('detected') and not d.get('not_claimed'):
     undetected += 1
-  det = ', '.join(f'`{c}`' for c in clauses[:(2 if design else 3)]) if v.get('detected') else '**not detected**'
+  det = ', '.join(f'`{c}`' for c in clauses[:(2 if design else 3)]) if v.get('detected') else (
+      'not claimed: ' + d['not_claimed'][:200] if d.get('not_claimed') else '**not detected**')
   summ = d.get('summary', '').replace('|', '/').replace('\n', ' ')
   needs = d.get('needs', '').replace('|', '/').replace('\n', ' ')
   if design:
